@@ -85,7 +85,7 @@ class C14(Prop):
     id = "C14"
     thorough_rounds = 6   # thorough tier: this many independently seeded rounds of the random generators (duplicates dropped)
     modules = ["H3.Props.C14", "H3.Lemmas.GenAgreeSend"]
-    engines = ["wbuf", "out"]
+    engines = ["wbuf", "sdc", "out"]
     design_ref = "DESIGN.md section 7, C14; section 9, R-14"
     level_text = ("Lean theorems over models of WriteBuf (fixed header array + payload, its From conversions and Buf impl), "
                   "Frame::encode, stream::write against an acceptance script, and of what each API call writes on which stream "
@@ -140,9 +140,10 @@ class C14(Prop):
     assumptions = ["R-14: API programs are sequences of calls each awaited to completion; a send future dropped in mid-write is outside the model",
                    "after FIN the transport refuses further writes (RFC 9000 §3.1); programs do not call send_* after finish on the same stream",
                    "programs do not call send_* / finish after stop_stream on the same stream; after split the send calls are made on the send half only",
-                   "engine out sends contiguous payloads (the scenario interpreter's connection is typed B = Bytes); segmented payloads "
-                   "are covered at the WriteBuf level (engine wbuf, datac:), where Frame::encode and impl Buf for WriteBuf - the only "
-                   "code that touches the payload on the send path - run on the real types, plus the translator's reading of both",
+                   "engine out sends contiguous payloads (the scenario interpreter's connection and SimQuic are typed B = Bytes); "
+                   "segmented payloads go through the real WriteBuf (engine wbuf, datac:), through real client / server connections "
+                   "typed B = Segs over a payload-generic copy of the small transport (engine sdc), and the translator reads the two "
+                   "places that take a length from the payload",
                    "a FIN the transport accepts after the send side has ended (peer STOP_SENDING / own RESET_STREAM / connection end) "
                    "finishes nothing (reading R-14b): SimQuic's poll_finish does not look at STOP_SENDING",
                    "engine out, grease on with credit limits: the harness seeds fastrand with a hash of the case line, so the three "
@@ -292,6 +293,54 @@ class C14(Prop):
                 pats.append(",".join(rng.choice(["a%d" % rng.randrange(0, 8), str(rng.randrange(0, 9))]) for _ in range(rng.randrange(1, 6))))
             for pt in pats:
                 L.append("wbuf %s %s" % (d, pt))
+        return L
+
+    def sdc_cases(self, tier, rng):
+        """engine `sdc`: a REAL client / server connection typed with a payload that is not contiguous (`B = Segs`, a deque of
+        `Bytes`) over a payload-generic copy of the small in-memory transport: `send_request` / `send_response`, one
+        `send_data(Segs)` per payload, `finish()`, the request stream's write credit `wc` plus grants handed out whenever a call is
+        pending.  Every 2-way split of 0..6 bytes, the splits around the length-varint boundaries, sampled 3/4-way splits with
+        empty segments (first included), 1-3 payloads per line, credit ample / dripping / running out anywhere."""
+        big = tier == "thorough"
+        L = []
+        rq = hx(self.request_frame(REQUESTS[0]))
+        fs_c = hx(self.fs_of("R", REQUESTS[0]) or [])
+        fs_s = hx(self.fs_of("sr", "200:-") or [])
+
+        def seg(bs):
+            return hx(bs) if bs else "-"
+
+        pays = []
+        for n in range(0, 7):
+            b = body(n, rng)
+            for i in range(0, n + 1):
+                pays.append("%s|%s" % (seg(b[:i]), seg(b[i:])))
+        for n in (63, 64, 65, 16383, 16384):
+            b = body(n, rng)
+            for i in sorted(set([0, 1, 63, 64, n - 63, n - 1, n, rng.randrange(0, n + 1)])):
+                if 0 <= i <= n:
+                    pays.append("%s|%s" % (seg(b[:i]), seg(b[i:])))
+        for _ in range(90 if big else 30):
+            n = rng.choice([0, 1, 2, 3, 5, 8, 17, 63, 64, 65, 200])
+            b = body(n, rng)
+            k = rng.choice([3, 3, 4])
+            cuts = sorted(rng.randrange(0, n + 1) for _ in range(k - 1))
+            if rng.random() < 0.4:
+                cuts[0] = 0
+            parts = [b[x:y] for x, y in zip([0] + cuts, cuts + [n])]
+            pays.append("|".join(seg(q) for q in parts))
+        for pay in pays:
+            for server in (False, True):
+                head = "#rq:%s #fs:%s" % (rq, fs_s) if server else "#fs:%s" % fs_c
+                more = [rng.choice(pays) for _ in range(rng.choice([0, 0, 1, 2]))]
+                body_toks = " ".join([pay] + more)
+                r = rng.random()
+                if r < 0.4:
+                    credit = "100000 -"
+                else:
+                    credit = "%d %s" % (rng.choice([0, 1, 2, 3, 5, 11, 12, 13, 20]),
+                                        ",".join(str(rng.choice([0, 1, 1, 2, 3, 7, 100])) for _ in range(rng.randrange(1, 30))))
+                L.append("sdc %s %s %s %s" % ("server" if server else "client", credit, head, body_toks))
         return L
 
     def cfg(self, rng, server, grease, limited):
@@ -659,7 +708,7 @@ class C14(Prop):
         return L
 
     def cases(self, tier, rng):
-        return self.wbuf_cases(tier, rng) + self.chunk_cases(tier, rng) + self.out_cases(tier, rng) + self.grease_backpressure_cases(tier, rng)
+        return self.wbuf_cases(tier, rng) + self.chunk_cases(tier, rng) + self.sdc_cases(tier, rng) + self.out_cases(tier, rng) + self.grease_backpressure_cases(tier, rng)
 
     def extra(self, tier, rng, ctx):
         # latent, outside the property's quantifier (h3 never sends PUSH_PROMISE and has no API to
@@ -678,6 +727,10 @@ class C14(Prop):
         if w[0] == "wbuf":
             kind = w[1].split(":")[0]
             return "wbuf/%s/%s" % (kind, "panic" if impl.startswith("panic") else impl.split("=")[0].split(" ")[0])
+        if w[0] == "sdc":
+            npay = len([t for t in w[4:] if not t.startswith("#")])
+            return "sdc/%s/%s/%s/payloads=%d" % (w[1], "ample" if w[3] == "-" else "credit", "fin" if ",fin" in impl else
+                                                ("pending" if "pending" in impl else impl.split(" ")[0][:12]), npay)
         cfg = w[2]
         grease = "g1" in cfg.split(",")
         limited = any(k in cfg for k in ("wc=", "uc=", "bc="))
@@ -729,6 +782,8 @@ class C14(Prop):
     def trivial(self, line, impl):
         if line.startswith("wbuf"):
             return not impl.startswith("all=")
+        if line.startswith("sdc"):
+            return not impl.startswith("0:tx=")
         ops = line.split()[3:]
         if re.search(r"(^| )1[45]:sh=[^- ]", impl):
             return False    # h3 has opened its grease stream and written on it
@@ -746,6 +801,16 @@ class C14(Prop):
                 k, a = w[1].rsplit(":", 1)
                 if len(a) > 2 and all(c in "0123456789abcdef" for c in a) and k.split(":")[-1] in ("data", "headers"):
                     out.append("wbuf %s:%s %s" % (k, a[:len(a) // 4 * 2] or "-", w[2]))
+            return out
+        if w[0] == "sdc":
+            pays = [i for i, t in enumerate(w) if i >= 4 and not t.startswith("#")]
+            for i in pays:
+                if len(pays) > 1:
+                    out.append(" ".join(w[:i] + w[i + 1:]))
+            gs = w[3].split(",")
+            for i in range(len(gs)):
+                rest = gs[:i] + gs[i + 1:]
+                out.append(" ".join(w[:3] + [",".join(rest) if rest else "-"] + w[4:]))
             return out
         ops = w[3:]
         i = 0
